@@ -62,3 +62,32 @@ func ghostListTwoElements(buf buffer.Buffer, v1 int32, v2 int64) (int32, int64, 
 	r2, _, err := decode.DecodeInt64(lst.GetBytes(1))
 	return r1, r2, 2, err
 }
+
+// ghostMessageTwoFieldsDescending: C01 for two fields written in descending tag order (t2 < t1):
+// the field table must come out sorted (the second entry is inserted in front of the first) for the
+// reader's binary search to find both; each value is read back from the data prefix that ends at
+// its recorded offset.
+func ghostMessageTwoFieldsDescending(buf buffer.Buffer, t1, t2 uint16, v1 int32, v2 int64) (int32, int64, error) {
+	w := newWriter(buf, false)
+	m := w.Message()
+	if err := m.Field(t1).Int32(v1); err != nil {
+		return 0, 0, err
+	}
+	if err := m.Field(t2).Int64(v2); err != nil {
+		return 0, 0, err
+	}
+	b, err := m.Build()
+	if err != nil {
+		return 0, 0, err
+	}
+	msg, err := types.OpenMessageErr(b)
+	if err != nil {
+		return 0, 0, err
+	}
+	r1, _, err := decode.DecodeInt32(msg.FieldRaw(t1))
+	if err != nil {
+		return 0, 0, err
+	}
+	r2, _, err := decode.DecodeInt64(msg.FieldRaw(t2))
+	return r1, r2, err
+}
